@@ -99,6 +99,15 @@ PROPS = {
         "trusted_base": ["tools/extract.py (payload layouts, schema field numbers regenerated from crypto/mod.rs and schema.proto)", "harness/src/s_chain.rs (history generator, structured mutations, prost decoding of the wire message)", "ed25519-dalek / p256 verifiers used independently of biscuit-auth to check real signatures over the model's payload bytes", "lean/Codec.lean, lean/Driver.lean"],
         "assumptions": ["unforgeability for the last next key"],
             },
+    "C12": {
+        "module": "BiscuitModel.Props.C12",
+        "streams": ["symbols", "authz"],
+        "level_text": "Lean 4 theorems about the token's symbol and public-key tables as a state machine over build / append / append-third-party: internBlockBuild_good and its family (Lemmas/Intern: interning any block - terms nested to any depth, expressions, closures, scopes - only appends to the tables and keeps them free of duplicates and default symbols), reload_step, reload_third_party, inv_build, inv_append, inv_append_third_party and history_inv (at every step of ANY history the tables kept in memory are exactly what deserialization rebuilds from the blocks' declarations; a third-party block neither reads nor extends them), redeclared_default_refused, redeclared_symbol_refused, redeclared_key_refused. Tie: histories mixing Biscuit and UnverifiedBiscuit (append, third-party append, conversions, in-memory verify) with blocks built from colliding strings, default symbols and a pool of keys used both in scopes and as external keys; after EVERY step the per-block declared symbols and keys of the reloaded token are compared with the model, and an implementation-only oracle compares print_block_source of the in-memory object, the reloaded Biscuit and the reloaded UnverifiedBiscuit, and the authorization outcome in memory vs reloaded; plus correctly signed blocks that redeclare a default symbol, an earlier symbol or a key.",
+        "level_note": "The printer is not part of this model (C14): equality of printed sources and of authorization results between the in-memory and reloaded token is observed by the oracle; what is proved is the equality of the tables they are computed from. The authz stream additionally authorizes every generated token in memory, reloaded and sealed.",
+        "rule": "symbols stream: corpus (the two fixed findings) first, seeded histories of 2-5 operations, ten redeclaration cases; non-trivial = redeclaration case or history of at least 3 observed steps; distinct = distinct case JSON",
+        "trusted_base": ["harness/src/s_symbols.rs, s_versions.rs::craft_append (signing fixture)", "tools/props.py oracle_symbols", "lean/Codec.lean, lean/Driver.lean"],
+        "assumptions": [],
+    },
     "C15": {
         "module": "BiscuitModel.Props.C15",
         "streams": ["chain"],
@@ -329,7 +338,7 @@ POST = {"chain": "chainpost"}
 FILTERS = {
     ("C16", "chain"): lambda case: case.get("op") == "chain" and case.get("mutation") == "none",
     ("C02", "chain"): lambda case: case.get("op") == "chain" and case.get("mutation") == "none",
-    ("C08", "chain"): lambda case: case.get("op") == "sealops" or ("seal" in (case["subject"].get("proof") or {}) and "ecdsa" not in case.get("mutation", "")),
+    ("C08", "chain"): lambda case: case.get("op") == "sealops" or (case.get("op") == "chain" and "seal" in (case["subject"].get("proof") or {}) and "ecdsa" not in case.get("mutation", "")),
     ("C01", "chain"): lambda case: case.get("op") == "chain",
     ("C07", "chain"): lambda case: case.get("op") in ("tpv", "tpu") or (case.get("op") == "chain" and "ecdsa" not in case.get("mutation", "") and ("external" in case.get("mutation", "") or any(b.get("ext") for b in case["subject"]["blocks"]))),
     ("C15", "chain"): lambda case: case.get("op") == "chain",
@@ -359,7 +368,32 @@ def cmp_versions(case, impl, model):
     return None
 
 
-COMPARATORS = {"versions": cmp_versions, "chain": cmp_chain, "limits": cmp_limits, "expr": cmp_default, "engine": cmp_engine, "authz": cmp_authz, "atten": cmp_atten, "determ": cmp_determ}
+def cmp_symbols(case, impl, model):
+    if "driver_error" in model:
+        return "driver error: %s" % model["driver_error"]
+    if "panic" in impl:
+        return "implementation panicked: %s" % impl["panic"]
+    if case["kind"] == "redeclare":
+        if impl["load"] != impl["load_unverified"]:
+            return "verified and unverified deserialization disagree on a redeclaring block"
+        if impl["load"] != model["load"]:
+            return "token whose block declares %s: implementation %s, model %s" % (
+                json.dumps(case["declared"]), "accepts" if impl["load"] else "refuses", "accepts" if model["load"] else "refuses")
+        return None
+    for n, (a, b) in enumerate(zip(impl["steps"], model["steps"])):
+        if "op_error" in a:
+            return "step %d (%s) failed: %s" % (n, case["ops"][n]["op"], a["op_error"])
+        if not b["reload_ok"] or not b["reload_same"]:
+            return "model: reload does not reproduce the in-memory tables at step %d" % n
+        if "reload_error" in a:
+            return "step %d: the token does not deserialize: %s" % (n, a["reload_error"])
+        for k in ("block_symbols", "block_keys", "third_party"):
+            if a.get(k) != b.get(k):
+                return "step %d (%s): %s differ: implementation %s model %s" % (n, case["ops"][n]["op"], k, json.dumps(a.get(k))[:200], json.dumps(b.get(k))[:200])
+    return None
+
+
+COMPARATORS = {"symbols": cmp_symbols, "versions": cmp_versions, "chain": cmp_chain, "limits": cmp_limits, "expr": cmp_default, "engine": cmp_engine, "authz": cmp_authz, "atten": cmp_atten, "determ": cmp_determ}
 
 
 def nontrivial(stream, case, impl):
@@ -367,6 +401,8 @@ def nontrivial(stream, case, impl):
         return impl.get("err") != "InvalidStack"
     if stream == "authz":
         return impl.get("r") in ("ok", "nomatch", "unauth")
+    if stream == "symbols":
+        return case["kind"] == "redeclare" or len(impl.get("steps", [])) >= 3
     if stream == "versions":
         return case["feature"] != "plain fact"
     if stream == "chain":
@@ -429,6 +465,31 @@ def oracle_atten(case, impl):
     return None
 
 
+def oracle_symbols(case, impl):
+    """C12 on the implementation alone: in memory == after a round trip, at every step"""
+    if "panic" in impl:
+        return "panic: %s" % impl["panic"]
+    for n, a in enumerate(impl.get("steps", [])):
+        op = case["ops"][n]["op"] if n < len(case.get("ops", [])) else "?"
+        if "op_error" in a or "reload_error" in a:
+            continue
+        if a.get("sources_mem") != a.get("sources_reloaded"):
+            return "step %d (%s): print_block_source differs between the in-memory token and the reloaded one: %s vs %s" % (
+                n, op, json.dumps(a.get("sources_mem"))[:300], json.dumps(a.get("sources_reloaded"))[:300])
+        if "sources_reloaded_unverified" in a and a["sources_reloaded_unverified"] != a["sources_reloaded"]:
+            return "step %d (%s): print_block_source differs between Biscuit and UnverifiedBiscuit on the same bytes: %s vs %s" % (
+                n, op, json.dumps(a["sources_reloaded"])[:300], json.dumps(a["sources_reloaded_unverified"])[:300])
+        if "verify_error" in a:
+            return "step %d (%s): the in-memory unverified token does not verify: %s" % (n, op, a["verify_error"])
+        am, ar = a.get("authz_mem"), a.get("authz_reloaded")
+        if am is not None and ar is not None:
+            ka = {k: am.get(k) for k in ("r", "p", "pk", "failed", "kind")}
+            kb = {k: ar.get(k) for k in ("r", "p", "pk", "failed", "kind")}
+            if ka != kb:
+                return "step %d (%s): authorization differs between the in-memory token and the reloaded one: %s vs %s" % (n, op, json.dumps(ka), json.dumps(kb))
+    return None
+
+
 def oracle_versions(case, impl):
     """C16 on the implementation alone, with the specification's answer computed by the model"""
     return None
@@ -456,7 +517,7 @@ def oracle_limits(case, impl):
     return None
 
 
-ORACLES = {("C10", "limits"): oracle_limits, ("C06", "expr"): oracle_expr, ("C03", "atten"): oracle_atten}
+ORACLES = {("C12", "symbols"): oracle_symbols, ("C10", "limits"): oracle_limits, ("C06", "expr"): oracle_expr, ("C03", "atten"): oracle_atten}
 
 
 def signature(d):
